@@ -113,14 +113,23 @@ WS_DOCS = [
     ('act', '<p> <b>bold</b> tail</p><p>\n  <i>it</i>\n</p>'),
     ('act', '<table><tr><td><p> <b>cell</b></p></td><th><p>  <sup>1</sup> x</p></th></tr></table>'),
     ('act', '<ul><li><p> <u>u</u> v</p></li><li><p>\t<b>tab</b> text</p></li></ul>'),
+    # the whole document pretty-printed by another tool (line break + indentation between all element children), for every kind of container
+    ('act', 'PRETTY<ul><li><p>first item</p></li><li><p>second item</p><p>more</p></li><li><p>third</p><ul><li><p>nested</p></li></ul></li></ul>'),
+    ('act', 'PRETTY<blockList><listIntroduction>intro</listIntroduction><item><num>(a)</num><p>x</p><p>y</p></item><item><num>(b)</num><blockList><item><num>(i)</num><p>z</p></item></blockList></item><listWrapUp>wrap</listWrapUp></blockList>'),
+    ('act', 'PRETTY<table><tr><th><p>h</p></th><td><p>c</p><p>d</p></td></tr><tr><td><p>e</p></td><td><p>f</p></td></tr></table>'),
+    ('act', 'PRETTY<p>plain</p><blockContainer><p>in</p><p>blocks</p></blockContainer><p>after</p>'),
+    ('bill', 'PRETTY<ul><li><p>a</p></li><li><p>b</p></li></ul><blockList><item><num>1</num><p>x</p></item><item><num>2</num><p>y</p></item></blockList>'),
 ]
 
 def _ws(i):
     root, inner = WS_DOCS[i]
+    pretty = inner.startswith('PRETTY'); inner = inner[6:] if pretty else inner
     ns = xmlsx.NS
     t = etree.fromstring('<akomaNtoso xmlns="%s"><%s name="%s"><body><section><num>1</num><content>%s</content></section>'
                          '<section><num>2</num><subsection><num>(1)</num><content><p>deep</p></content></subsection>'
                          '<wrapUp><p> <b>bold</b> tail</p></wrapUp></section></body></%s></akomaNtoso>' % (ns, root, root, inner, root))
+    if pretty:
+        etree.indent(t, space='  ')
     p = impl.parser()
     try:
         text = p.unparse(t)
